@@ -148,16 +148,36 @@ def run(prog):
     return out
 
 
+def short_circuits(fn):
+    """a clear_scratch that branches on the node's own slot (stops when it is already empty)"""
+    for b, (c, _) in fn.terms.switch_term.items():
+        sc = show(c)
+        if sc.startswith("discr(next(") or sc.startswith("discr(arg") or sc.startswith("discr(*arg"):
+            continue  # the element loop / the match on the pointer's own variant
+        return True  # any other test before the descent (today: none) makes the descent conditional
+    return False
+
+
 def sp2(prog, fns, leaky):
     out = []
     n = 0
+    # the SDD side clears unconditionally today; if any of its clear_scratch functions starts to short-circuit,
+    # the same marking discipline is required of every SDD traversal
+    sdd_clear = [f for f in prog.lib_fns if f.name == "clear_scratch" and f.impl_self in SCRATCH_OWNERS[1:]]
+    if len(sdd_clear) < 3:
+        raise CheckerError("SP2: expected clear_scratch of SddPtr, BinarySDD, SddOr; found %d" % len(sdd_clear))
+    short = [f.npath for f in sdd_clear if short_circuits(f)]
+    sdd_short = bool(short)
+    out.append(inst("SP", "SP2:sdd-clear-scratch:mode", OK, sdd_clear[0], None,
+                    ("short-circuiting (%s): SDD traversals are held to the marking discipline" % short) if sdd_short else
+                    "SDD clear_scratch descends unconditionally: completeness does not depend on which nodes a traversal marks"))
     for f in fns:
         if id(f) not in leaky or is_setter(f):
             continue
         if not f.unit.endswith("-lib.json"):
             continue
         o = outer(prog, f)
-        if "repr::bdd" not in f.npath and "decision_nnf" not in f.npath:
+        if "repr::bdd" not in f.npath and "decision_nnf" not in f.npath and not (sdd_short and "repr::sdd" in f.npath):
             continue
         te = f.terms
         cfg = f.cfg
